@@ -51,6 +51,7 @@ class ModuleInfo:
     classes: Dict[str, ast.ClassDef] = field(default_factory=dict)
     imports: Dict[str, str] = field(default_factory=dict)  # local name -> dotted origin
     inlined: List[str] = field(default_factory=list)  # helpers extracted after the pinned tree that were inlined at load time
+    specialised: List[tuple] = field(default_factory=list)  # (function, option, default): options added after the pinned tree, analysed at their default
 
     def digest(self) -> str:
         return hashlib.sha256(self.src.encode()).hexdigest()[:16]
@@ -105,20 +106,22 @@ class Repo:
                     if rel in self.overlay:
                         src = self.overlay[rel]
                         ck = None
-                        ok_ = (rel, hashlib.sha1(src.encode("utf-8", "replace")).hexdigest(), ext_digest.get(rel))
+                        ok_ = (rel, hashlib.sha1(src.encode("utf-8", "replace")).hexdigest(), ext_digest.get(rel), self._spec_digest.get(rel))
                         if ok_ in _OVERLAY_CACHE:
                             _OVERLAY_CACHE.move_to_end(ok_)
                             self.modules[rel] = _OVERLAY_CACHE[ok_]
                             continue
                     else:
                         st = os.stat(path)
-                        ck = (path, st.st_mtime_ns, st.st_size, ext_digest.get(rel))
+                        ck = (path, st.st_mtime_ns, st.st_size, ext_digest.get(rel), self._spec_digest.get(rel))
                         if ck in _PARSE_CACHE:
                             self.modules[rel] = _PARSE_CACHE[ck]
                             continue
                         with open(path, "r", encoding="utf-8") as fh:
                             src = fh.read()
-                    tree = normalise(ast.parse(src, filename=path), externs.get(rel))
+                    from .specialise import specialise
+                    tree0, specialised = specialise(ast.parse(src, filename=path), rel, self._used_kws, self._max_pos)
+                    tree = normalise(tree0, externs.get(rel))
                     tree, inlined = inline_new_helpers(tree, rel)
                     if inlined:
                         tree = normalise(tree, externs.get(rel))
@@ -127,6 +130,7 @@ class Repo:
                     continue
                 mi = ModuleInfo(rel=rel, path=path, src=src, tree=tree)
                 mi.inlined = inlined
+                mi.specialised = specialised
                 _index_module(mi)
                 self.modules[rel] = mi
                 if ck is not None:
@@ -142,7 +146,7 @@ class Repo:
         """({module rel: {local name: signature of the package function / class it imports}}, digest of all signatures).
         A first, cheap pass (ast.parse only, cached by content): normal form N22 needs the parameter order of callees defined in other modules."""
         from .normal import module_signatures
-        sigs, imps = {}, {}
+        sigs, imps, usage, newp = {}, {}, {}, {}
         for dirpath, dirnames, filenames in os.walk(pkg):
             dirnames[:] = sorted(d for d in dirnames if d != "__pycache__")
             for fn in sorted(filenames):
@@ -166,9 +170,12 @@ class Repo:
                                 mod = ("." * st.level) + (st.module or "")
                                 for a in st.names:
                                     im[a.asname or a.name] = f"{mod}.{a.name}"
-                        hit = (module_signatures(t), im)
+                        from .specialise import call_usage, new_params
+                        hit = (module_signatures(t), im, call_usage(t), new_params(t, rel))
                         _SIG_CACHE[(rel, key)] = hit
-                    sigs[rel], imps[rel] = hit
+                    sigs[rel], imps[rel] = hit[0], hit[1]
+                    usage[rel] = hit[2]
+                    newp[rel] = hit[3]
                 except (SyntaxError, UnicodeDecodeError, OSError):
                     continue
         rels = set(sigs)
@@ -212,6 +219,15 @@ class Repo:
             if ex:
                 externs[rel] = ex
         digest = hashlib.sha1(repr(sorted((r, sorted(f.items()), sorted((c, sorted(m.items())) for c, m in cl.items())) for r, (f, cl) in sigs.items())).encode()).hexdigest()
+        # keywords / positional counts used by calls anywhere in the package (sa/specialise.py: an option no caller passes is analysed at its default)
+        self._used_kws = set()
+        self._max_pos = {}
+        for rel_, (kws_, npos_) in usage.items():
+            self._used_kws |= kws_
+            for k_, v_ in npos_.items():
+                self._max_pos[k_] = max(self._max_pos.get(k_, 0), v_)
+        self._spec_digest = {rel_: hashlib.sha1(repr(sorted((nm_, p_, (nm_, p_) in self._used_kws or (nm_, "**") in self._used_kws, self._max_pos.get(nm_, 0))
+                                                                for nm_, p_ in ps_)).encode()).hexdigest() for rel_, ps_ in newp.items() if ps_}
         return externs, digest
 
     def _cross_module_helpers(self) -> None:
@@ -231,7 +247,8 @@ class Repo:
             if not foreign:
                 continue
             try:
-                tree = normalise(ast.parse(mi.src, filename=mi.path), self._externs.get(rel))
+                from .specialise import specialise as _spec
+                tree = normalise(_spec(ast.parse(mi.src, filename=mi.path), rel, self._used_kws, self._max_pos)[0], self._externs.get(rel))
                 tree, inlined = _inl(tree, rel, foreign)
                 if inlined:
                     tree = normalise(tree, self._externs.get(rel))
@@ -241,6 +258,7 @@ class Repo:
                 continue
             mi2 = ModuleInfo(rel=rel, path=mi.path, src=mi.src, tree=tree)
             mi2.inlined = inlined
+            mi2.specialised = list(getattr(mi, "specialised", []))
             _index_module(mi2)
             self.modules[rel] = mi2   # depends on another module's content: never put into the per-file parse cache
 
